@@ -7,15 +7,20 @@ SYM = os.path.join(vlib.SPEC, "sym")
 SMALL_X = {
     0: (1, "v[i]"),
     1: (2, "v[i] \\/ V(i + 1) \\/ (i % 2 = 1)"),
-    5: (32, "~((i = 0 /\\ (\\A j \\in Bits : j < 32 => ~v[j])) \\/ (i = 32 /\\ ~(\\A j \\in Bits : j < 32 => ~v[j]) "
-            "/\\ (\\A j \\in Bits : j >= 32 => ~v[j])))"),
-    6: (64, "~(i = 0 /\\ (\\A j \\in Bits : ~v[j]))"),
+}
+HALVES = {
+    5: (32, "(b = 0 /\\ Low) \\/ (b = 32 /\\ ~Low /\\ High)", "{0, 32}"),
+    6: (64, "b = 0 /\\ Low /\\ High", "{0}"),
 }
 SUB_W = {2: 4, 3: 8, 4: 16}
 
 
 def gen(k, workdir):
-    if k in SMALL_X:
+    if k in HALVES:
+        w, cnd, starts = HALVES[k]
+        t = open(os.path.join(SYM, "RowSearchSymHalves.tla.in")).read()
+        t = t.replace("@K@", str(k)).replace("@W@", str(w)).replace("@COND@", cnd).replace("@STARTS@", starts)
+    elif k in SMALL_X:
         w, x = SMALL_X[k]
         t = open(os.path.join(SYM, "RowSearchSymSmall.tla.in")).read()
         t = t.replace("@K@", str(k)).replace("@W@", str(w)).replace("@X@", x)
